@@ -23,7 +23,7 @@ RULE = ("cases = generated dyadic specifications with shuffled declaration order
         "unrestricted discrete states, continuous states); distinct = structural signature; evaluations = array entries whose state "
         "(by the layout contract) was re-valued by the specification-level enumeration")
 ASSUMPTIONS = ["exact comparison on dyadic inputs", "periods after which the model's arrays contain -inf are compared for shape only"]
-FORCES = [["filter"], ["f1"], ["mixed"], None, ["filter", "stoch"], ["nofilter"], ["f1", "constraint"], ["filter", "cont2"]]
+FORCES = [["filter"], ["f1two"], ["f1"], ["mixed"], None, ["filter", "stoch"], ["nofilter"], ["f1", "constraint"], ["filter", "cont2"]]
 
 
 def cases(seed, tier):
